@@ -104,6 +104,44 @@ def do_crypt(case):
     return out
 
 
+def do_seq(q):
+    """ONE manager instance, a sequence of independent calls.
+    q = {"mgr", "key", "inp", "calls": [{"op": "enc"|"dec", "frame": hex, "set": null|{...}, "via": "obj"|"bytes"}]}"""
+    kind = q["mgr"]
+    base = BASE[kind]
+    try:
+        mgr = mk_mgr(kind, bytes.fromhex(q["key"]), q.get("inp"))
+    except Exception as e:  # noqa
+        return [{"exc": type(e).__name__, "where": "manager"}]
+    out = []
+    for c in q["calls"]:
+        b = bytes.fromhex(c["frame"])
+        res = {"key_used": bytes(mgr.key).hex()}
+        if c["via"] == "obj" or c.get("set") is not None:
+            arg = Dot15d4(b)
+            if c.get("set") is not None:
+                arg[ZigbeeSecurityHeader].data = bytes.fromhex(c["set"]["data"])
+                arg[ZigbeeSecurityHeader].mic = bytes.fromhex(c["set"]["mic"])
+            res["in"] = dis(arg, base)
+        else:
+            arg = b
+            res["in"] = dis(Dot15d4(b), base)
+        try:
+            if c["op"] == "enc":
+                pkt = mgr.encrypt(arg)
+                res["status"] = None
+            else:
+                pkt, status = mgr.decrypt(arg)
+                res["status"] = bool(status)
+            res["out"] = dis(pkt, base)
+            res["out_frame"] = raw(pkt).hex()
+        except Exception as e:  # noqa
+            res["exc"] = type(e).__name__
+        res["patched_after"] = bool(mgr.patched)
+        out.append(res)
+    return out
+
+
 # ---------------------------------------------------------------------------
 # NWK manager histories (real NWKManager inside a Sandbox playing the MAC layer)
 # ---------------------------------------------------------------------------
@@ -292,7 +330,8 @@ def main():
            "nwk": [do_nwk(h) for h in req.get("nwk", [])],
            "hash": [do_hash(c) for c in req.get("hash", [])],
            "aps_data": [do_aps_data(c) for c in req.get("aps_data", [])],
-           "aps": [do_aps(h) for h in req.get("aps", [])]}
+           "aps": [do_aps(h) for h in req.get("aps", [])],
+           "seq": [do_seq(q) for q in req.get("seq", [])]}
     print("RESULT " + json.dumps(res))
 
 main()
